@@ -368,7 +368,8 @@ def run(ctx):
             text = content if isinstance(content, str) else ""
             classes = s["turns"][t - 1]["classes"]
             delivered, tmpl_sent, literal = _data_case(s["mode"], t, classes, tr["calls"], text)
-            evaluated = "49" in text and any(c in ("template", "inlinetmpl", "botvar") for c in classes.values())
+            # (the names of generated flows end in random hex digits - "Internal error on flow `dynamic_ed49`" - and are not LLM text)
+            evaluated = "49" in re.sub(r"dynamic_[0-9a-f]+", "dynamic_", text) and any(c in ("template", "inlinetmpl", "botvar") for c in classes.values())
             cases.append({"evaluated": evaluated, "raised": tr["raised"] is not None, "role": reply.get("role") or "", "content_is_string": isinstance(content, str),
                           "llm_text_delivered": delivered, "template_sent": tmpl_sent, "template_literal": literal})
             idx.append((sid, t, tr))
